@@ -8,9 +8,9 @@
 package main
 
 import (
-	"hash/fnv"
 	"encoding/json"
 	"fmt"
+	"hash/fnv"
 	"os"
 	"path/filepath"
 	"regexp"
